@@ -397,11 +397,6 @@ func (n *vPPNet) mkLink(server, peer *mockServer, channel *lnwallet.LightningCha
 	if err := sw.AddLink(reg); err != nil {
 		return nil, fmt.Errorf("unable to add channel link: %w", err)
 	}
-	if n.spec.Upd && role != 0 {
-		// before any peer message can reach the new link (servers not
-		// started yet / delivery gate held)
-		lp.UpdateForwardingPolicy(policy)
-	}
 
 	return lp, nil
 }
@@ -486,6 +481,26 @@ func (n *vPPNet) links(ch *clusterChannels, one, two bool) error {
 		n.mu.Lock()
 		n.bob1 = l
 		n.mu.Unlock()
+	}
+	if n.spec.Upd {
+		// The policies reach Bob's links the way `updatechanpolicy` delivers
+		// them: ONE Switch.UpdateForwardingPolicies call with a map keyed by
+		// channel point (several channels at once, plus a channel the switch
+		// does not know), before any peer message can reach the new links
+		// (servers not started yet / delivery gate held).
+		n.mu.Lock()
+		b1, b2 := n.bob1, n.bob2
+		n.mu.Unlock()
+		m := map[wire.OutPoint]models.ForwardingPolicy{
+			{Index: 4242}: {BaseFee: 1, MinHTLCOut: 999999999},
+		}
+		if b1 != nil {
+			m[b1.channel.ChannelPoint()] = n.inPolicy
+		}
+		if b2 != nil {
+			m[b2.channel.ChannelPoint()] = n.outPolicy
+		}
+		n.bob.htlcSwitch.UpdateForwardingPolicies(m)
 	}
 
 	return err
